@@ -116,8 +116,16 @@ Render(t, m) ==     \* runtime._render(template, template.callable_, ...): the t
   /\ last' = [op |-> "render", t |-> t, m |-> m, val |-> obj[t].src] /\ UNCHANGED <<obj, reg, disk, epoch>>
 \* _get_module_info_from_callable(self.callable_): ModuleInfo._modules[callable_.__globals__["__name__"]]
 Info(t) == IF Has(obj[t].name) THEN obj[Get(obj[t].name)].src ELSE "KeyError"
-Source(t) == /\ t \in Alive /\ last' = [op |-> "source", t |-> t, val |-> Info(t)] /\ UNCHANGED <<obj, reg, disk, epoch>>
-Code(t)   == /\ t \in Alive /\ last' = [op |-> "code", t |-> t, val |-> Info(t)] /\ UNCHANGED <<obj, reg, disk, epoch>>
+\* Besides WHOSE text / module comes back there is a ground truth for WHAT comes back, per path (ModuleInfo.source /
+\* ModuleInfo.code): the template text is the text given (a string template) or the content of the template file; the
+\* generated module is the text of the MODULE FILE when the module lives in one (util.read_python_file: the whole file,
+\* its coding line included), else the source the compiler produced for this object.
+SourceBacking(t) == IF obj[t].kind = "string" THEN "given" ELSE "file"
+CodeBacking(t) == IF obj[t].kind \in {"moddir", "wrap"} THEN "modfile" ELSE "memory"
+Source(t) == /\ t \in Alive /\ last' = [op |-> "source", t |-> t, val |-> Info(t), backing |-> SourceBacking(t)]
+             /\ UNCHANGED <<obj, reg, disk, epoch>>
+Code(t)   == /\ t \in Alive /\ last' = [op |-> "code", t |-> t, val |-> Info(t), backing |-> CodeBacking(t)]
+             /\ UNCHANGED <<obj, reg, disk, epoch>>
 Defs(t)   == /\ t \in Alive /\ last' = [op |-> "defs", t |-> t, val |-> obj[t].src] /\ UNCHANGED <<obj, reg, disk, epoch>>
 
 \* (object quantifiers range over the constant 1..MaxObj so that TLC reports coverage per action)
